@@ -404,6 +404,86 @@ def _task_send(task):
     return res
 
 
+def run_many_fds(counts, mode, little):
+    """messages carrying many descriptors (counts[k] each, as 'ah'):
+    mode 'ahead' - the descriptors of all messages arrive before the first
+    read; 'each' - those of each message arrive just before its read;
+    'sender' - the same messages are sent through callRemote"""
+    viol = []
+    base = 1000
+    fds, raws = [], []
+    for k, n in enumerate(counts):
+        mine = list(range(base, base + n))
+        base += n
+        fds.append(mine)
+        raws.append(R.encode_message(
+            1, 60 + k, {'path': '/p', 'member': 'Many', 'unix_fds': n},
+            'ahu', [mine, k], little=little, fds=[]))
+    raws.append(R.encode_message(1, 99, {'path': '/p', 'member': 'Probe',
+                                         'unix_fds': 1}, 'h', [777],
+                                 little=little, fds=[]))
+    try:
+        p, t = c04.make_server()
+        p.dataReceived(c04.SERVER_HS)
+        if mode == 'ahead':
+            for mine in fds:
+                for fd in mine:
+                    p.fileDescriptorReceived(fd)
+            p.dataReceived(b''.join(raws[:-1]))
+        else:
+            for mine, raw in zip(fds, raws):
+                for fd in mine:
+                    p.fileDescriptorReceived(fd)
+                p.dataReceived(raw)
+        p.fileDescriptorReceived(777)
+        p.dataReceived(raws[-1])
+        got = [getattr(m, 'body', None) for m in p.got]
+        want = [[mine, k] for k, mine in enumerate(fds)] + [[777]]
+        if got != want:
+            bad = [k for k in range(min(len(got), len(want)))
+                   if got[k] != want[k]]
+            k = bad[0] if bad else min(len(got), len(want))
+            first = None
+            if bad and got[k] and isinstance(got[k][0], list):
+                first = next((j for j in range(min(len(got[k][0]),
+                                                   len(want[k][0])))
+                              if got[k][0][j] != want[k][0][j]), None)
+            viol.append(('many-descriptors/%s/%s' % (
+                mode, 'count' if len(got) != len(want) else 'misattributed'),
+                'messages carrying %r descriptors (%s): %d of %d messages '
+                'delivered; message %d differs first at descriptor index %r'
+                % (list(counts), 'all descriptors ahead of the first read'
+                   if mode == 'ahead' else 'each message\'s descriptors '
+                   'just before its bytes', len(got), len(want), k, first)))
+    except Exception as e:
+        viol.append(('many-descriptors/%s/raises-%s'
+                     % (mode, type(e).__name__),
+                     'counts %r: raised %r' % (list(counts), e)))
+    return viol
+
+
+MANY_FDS = [(16,), (17,), (253,), (254,), (255,), (256,), (257,), (1024,),
+            (200, 53), (200, 54), (253, 1), (253, 253), (254, 254), (100,) * 3,
+            (128, 128, 1), (1, 253), (1, 254)]
+
+
+def _task_many_fds(counts):
+    res = core.Result()
+    for mode in ('ahead', 'each'):
+        for little in (True, False):
+            res.count('states')
+            res.count('transitions')
+            res.count('evaluations')
+            res.count('traces')
+            res.count('nontrivial')
+            for tag, what in run_many_fds(counts, mode, little):
+                res.violation('%s/receiver/%s' % (PROP, tag), what,
+                              {'part': 'many', 'args': [list(counts), mode,
+                                                        little]},
+                              size=sum(counts))
+    return res
+
+
 def run(ctx):
     ctx.rule = (
         'sender: every sequence of <= 3 calls over %d bodies (none, h, hh, '
@@ -419,7 +499,9 @@ def run(ctx):
         'message, and schedules in which the first descriptors arrive '
         'before the read that completes the handshake (BEGIN alone or in one '
         'read with message bytes); a trailing probe message checks that exactly the declared '
-        'count was consumed. state = message sequence; transition = one '
+        'count was consumed. Messages carrying 16..1024 descriptors each '
+        '(one to three in a row), all descriptors ahead of the first read or '
+        'each message\'s just before it. state = message sequence; transition = one '
         'executed schedule; non-trivial = at least one descriptor arrives '
         'after a read' % (NSEND, ' (a quarter)' if ctx.quick else '',
                           '' if ctx.quick else ' / pairs near boundaries'))
@@ -430,9 +512,14 @@ def run(ctx):
     n = ctx.jobs * 3
     ctx.map(_task_send, [(i, n) for i in range(n)])
     ctx.map(_task_recv, [(ctx.quick, i, n) for i in range(n)])
+    ctx.map(_task_many_fds, MANY_FDS)
 
 
 def replay(data):
+    if data['part'] == 'many':
+        a = data['args']
+        return [('%s/receiver/%s' % (PROP, t), w)
+                for t, w in run_many_fds(tuple(a[0]), a[1], a[2])]
     if data['part'] == 'send':
         found = sender_case(tuple(data['idxs']))
         return [('%s/sender/%s' % (PROP, t), w) for t, w in found]
